@@ -280,6 +280,11 @@ def c08_units(tier, seed):
     for Y in ys:
         for m in range(1, 13):
             us.append(dict(id=f"C08b[Y={Y},m={m}]", harness="calendar.VH_C08_Year", params={"Y": Y, "SECT": 1 + (Y + m) % 2, "GENDER": (Y // 2 + m) % 2}, concrete={"v_m": m}))
+    us += per_year("calendar.VH_C08_Inv", "C08i", year_set(tier, seed, budget_quick=12) if q else year_set(tier, seed))
+    # the fortune objects: every accessor on the field-level chain states (same units as C12b)
+    for I in ((0, 1, 9) if q else range(10)):
+        for fwd in (0, 1):
+            us.append(dict(id=f"C08d[I={I},fwd={fwd}]", harness="calendar.VH_C12_Chain", params={"Y": 2020, "I": I, "BM": 11, "FWD": fwd}))
     for Y in (year_set(tier, seed, budget_quick=8) if q else year_set(tier, seed)[::2]):
         if Y < 2 or Y > 9997:
             continue
